@@ -2206,4 +2206,91 @@ theorem mergeAllAtomic_skips_rejected : ∀ (os : List Lib) (t : Lib),
 example : (mergeAllAtomic Lib.empty [gA, gA, gC]).1 = [true, false, true] ∧
     (mergeAllAtomic Lib.empty [gA, gA, gC]).2 = (mergeAllAtomic Lib.empty [gA, gC]).2 := by decide
 
+/-! ## boundary sizes of the nuclide set: libraries without nuclides still merge their group structure and metadata -/
+
+/-- a library without nuclides is in the domain of every merge theorem as soon as its metadata are well formed -/
+theorem WF_of_no_nuclides (l : Lib) (hn : l.nucs = []) (h1 : l.isoMeta.good) (h2 : l.pmMeta.good) (h3 : l.gamMeta.good) :
+    l.WF := by
+  refine ⟨h1, h2, h3, by simp [hn, Nucs.labels], ?_⟩
+  intro lab n h; simp [hn, Nucs.find] at h
+
+/-- **a nuclide-free library never adds, removes or changes a nuclide**, accepted or rejected -/
+theorem merge_nuclide_free_other_nucs (t o : Lib) (hn : o.nucs = []) : (Lib.merge t o).2.nucs = t.nucs := by
+  rcases merge_nucs_cases t o with e | e
+  · exact e
+  · rw [e, hn]; rfl
+
+/-- **… but it takes part in conflict detection like any other**: a different neutron group structure is rejected
+although the library holds no nuclide (the general `merge_conflict_group_structure` needs no nuclide), in BOTH orders -/
+theorem merge_nuclide_free_conflict_rejected (t o : Lib) (wt : t.WF) (wo : o.WF) (hn : o.nucs = []) (c w : Val)
+    (ht : t.nEnergy.read = some c) (ho : o.nEnergy.read = some w) (hne : c ≠ w) :
+    (Lib.merge t o).1 = false ∧ (Lib.merge o t).1 = false ∧ (Lib.merge t o).2.nucs = t.nucs :=
+  ⟨merge_conflict_group_structure t o wo c w ht ho hne,
+   merge_conflict_group_structure o t wt w c ho ht (Ne.symm hne), merge_nuclide_free_other_nucs t o hn⟩
+
+/-- gamma group structure, same statement -/
+theorem merge_nuclide_free_gamma_conflict_rejected (t o : Lib) (wt : t.WF) (wo : o.WF) (c w : Val)
+    (ht : t.gEnergy.read = some c) (ho : o.gEnergy.read = some w) (hne : c ≠ w) :
+    (Lib.merge t o).1 = false ∧ (Lib.merge o t).1 = false := by
+  constructor
+  · apply merge_conflict_rejected t o wo
+    intro hc; exact hne (hc.2.2.2.1 c w ht ho)
+  · apply merge_conflict_rejected o t wt
+    intro hc; exact hne ((hc.2.2.2.1 w c ho ht).symm)
+
+private theorem mergeNucs_disjoint : ∀ (o t : Nucs), (Nucs.labels t ++ Nucs.labels o).Nodup →
+    mergeNucs t o = (true, t ++ o) := by
+  intro o
+  induction o with
+  | nil => intro t _; simp [mergeNucs]
+  | cons q rest ih =>
+    intro t h
+    obtain ⟨l, n⟩ := q
+    have hl : l ∉ Nucs.labels t := by
+      intro hm
+      have := (List.nodup_append.mp h).2.2 l hm l (by simp [Nucs.labels])
+      exact this rfl
+    have hf : Nucs.find t l = none := (Nucs.find_none_iff t l).mpr hl
+    have h' : (Nucs.labels (t ++ [(l, n)]) ++ Nucs.labels rest).Nodup := by
+      simpa [Nucs.labels, List.append_assoc] using h
+    simp only [mergeNucs, hf]
+    rw [ih _ h']
+    simp
+
+private theorem prop_set_none (v : Option Val) : Prop'.set none v = some (some v) := rfl
+
+/-- **hand-over to an empty target**: a fresh `IsotxsLibrary()` accepts ANY well-formed library — with or without
+nuclides — and afterwards reads its group structures / dose factors / velocity, holds its three metadata blocks (file names
+included) and its nuclides in its order -/
+theorem merge_into_empty_target (o : Lib) (wo : o.WF) :
+    (Lib.merge Lib.empty o).1 = true ∧
+    (Lib.merge Lib.empty o).2.nEnergy.read = o.nEnergy.read ∧ (Lib.merge Lib.empty o).2.gEnergy.read = o.gEnergy.read ∧
+    (Lib.merge Lib.empty o).2.ndcf.read = o.ndcf.read ∧ (Lib.merge Lib.empty o).2.gdcf.read = o.gdcf.read ∧
+    (Lib.merge Lib.empty o).2.nVel.read = o.nVel.read ∧
+    (Lib.merge Lib.empty o).2.isoMeta = o.isoMeta ∧ (Lib.merge Lib.empty o).2.pmMeta = o.pmMeta ∧
+    (Lib.merge Lib.empty o).2.gamMeta = o.gamMeta ∧ (Lib.merge Lib.empty o).2.nucs = o.nucs := by
+  have hn : mergeNucs [] o.nucs = (true, o.nucs) := by
+    have := mergeNucs_disjoint o.nucs [] (by simpa [Nucs.labels] using wo.2.2.2.1)
+    simpa using this
+  have hm : ∀ b : FileMeta, FileMeta.merge ⟨[], []⟩ b = some b := by
+    intro b
+    obtain ⟨d, f⟩ := b
+    simp [FileMeta.merge, Meta.update]
+  simp [Lib.merge, Lib.mergeProperties, Lib.empty, prop_set_none, hm, hn, Prop'.read]
+
+private def bareLib (e : Val) (m : Val) : Lib :=
+  ⟨none, some (some e), some (some 8), none, none, ⟨[(4, m)], [3]⟩, ⟨[], []⟩, ⟨[], []⟩, []⟩
+
+/-- a nuclide-free library with another group structure is refused by a full one, and refuses it -/
+example : (Lib.merge gA (bareLib 9 3)).1 = false ∧ (Lib.merge (bareLib 9 3) gA).1 = false := by decide
+/-- with the same structure and metadata it is accepted in both orders and changes no nuclide -/
+example : (Lib.merge gA (bareLib 7 3)).1 = true ∧ (Lib.merge (bareLib 7 3) gA).1 = true ∧
+    Nucs.labels (Lib.merge gA (bareLib 7 3)).2.nucs = [10] ∧ Nucs.labels (Lib.merge (bareLib 7 3) gA).2.nucs = [10] := by decide
+/-- differing file metadata alone are enough -/
+example : (Lib.merge gA (bareLib 7 4)).1 = false := by decide
+/-- an empty target takes over the structure of a nuclide-free library; two nuclide-free libraries still conflict -/
+example : (Lib.merge Lib.empty (bareLib 9 3)).2.nEnergy.read = some 9 ∧ (Lib.merge (bareLib 9 3) (bareLib 7 3)).1 = false := by decide
+example : (mergeSeq Lib.empty [bareLib 7 3, gA, gB]).2.1 = true ∧ (mergeSeq Lib.empty [gB, gA, bareLib 7 3]).2.1 = true ∧
+    (mergeSeq Lib.empty [gB, bareLib 9 3, gA]).2.1 = false ∧ (mergeSeq Lib.empty [gA, gB, bareLib 9 3]).2.1 = false := by decide
+
 end ArmiVerif.XsLib
